@@ -102,6 +102,7 @@ REVERT_PROPS = {
     'concurrent blocking emits do not trip': ['C16', 'C03'],
     'rate_limit keeps arrival order and spacing': ['C13', 'C02'],
     'slice stays within its end': ['C01'],
+    "collect.flush hands its consumers' awaitables": ['C02'],
 }
 
 
